@@ -447,4 +447,27 @@ mod tests {
 #[allow(missing_docs, unused_imports, dead_code, clippy::all, clippy::pedantic, clippy::nursery)]
 pub mod verif_hooks {
     use super::*;
+
+    pub use super::{Index, IndexCollector, IndexType, PackIndexes};
+
+    /// `<IndexCollector as Extend<IndexPack>>::extend`
+    pub fn collector_extend(c: &mut IndexCollector, packs: Vec<IndexPack>) {
+        c.extend(packs);
+    }
+    /// `<Index as ReadIndex>::get_id`
+    pub fn get_id(i: &Index, tpe: BlobType, id: &BlobId) -> Option<IndexEntry> {
+        i.get_id(tpe, id)
+    }
+    /// `<Index as ReadIndex>::has`
+    pub fn has(i: &Index, tpe: BlobType, id: &BlobId) -> bool {
+        i.has(tpe, id)
+    }
+    /// `<Index as ReadIndex>::total_size`
+    pub fn total_size(i: &Index, tpe: BlobType) -> u64 {
+        i.total_size(tpe)
+    }
+    /// `Index::drop_data`
+    pub fn drop_data(i: Index) -> Index {
+        i.drop_data()
+    }
 }
